@@ -108,6 +108,19 @@ REQUESTS = [
     ("b.a.example", [dns("b.a.example")], "Example Org"),
 ]
 REQ_CLASS = ["cn+san", "cn+san", "cn+san", "ip", "cn+2san", "san-only", "cn-only", "long-cn", "cn+san+org"]
+# how `sans` (declared Iterable[GeneralName]) is handed over, per request shape: a list, a tuple, a one-shot iterator
+# (generator), or an x509.GeneralNames object (what the store itself uses in its keys)
+SANS_AS = ["list", "tuple", "list", "list", "iter", "names", "list", "iter", "list"]
+
+
+def pass_sans(sans, how):
+    if how == "tuple":
+        return tuple(sans)
+    if how == "iter":
+        return (x for x in list(sans))
+    if how == "names":
+        return x509.GeneralNames(list(sans))
+    return list(sans)
 
 CAP = 2
 # reduced alphabet for the deeper search: a.example, the two-SAN request, the SAN-only request, the long CN, the request
@@ -197,18 +210,18 @@ def held_generated(store):
 
 def do_get(s: Sys, ri, phase="bfs", req=None):
     if req is not None:
-        cn, sans, org, rclass = req
+        cn, sans, org, rclass, how = req
     else:
         cn, sans, org = REQUESTS[ri]
-        rclass = REQ_CLASS[ri]
-    f = {"op": "get", "req": rclass, "phase": phase}
+        rclass, how = REQ_CLASS[ri], SANS_AS[ri]
+    f = {"op": "get", "req": rclass, "sans_as": how, "phase": phase}
     prev = s.last.get(ri if req is None else (cn,))
     prev_cached = prev is not None and any(v is prev[0] for v in s.store.certs.values())
     try:
         if org is None:
-            e = s.store.get_cert(cn, list(sans))
+            e = s.store.get_cert(cn, pass_sans(sans, how))
         else:
-            e = s.store.get_cert(cn, list(sans), organization=org)
+            e = s.store.get_cert(cn, pass_sans(sans, how), organization=org)
     except KeyboardInterrupt:
         raise
     except BaseException as ex:
@@ -357,7 +370,7 @@ def linear(t: Tally, n=130, verbose=False):
         name = ("h%03d." % k) + ("l" * 56 + "." if k % 7 == 3 else "") + "t.example"
         org = "Example Org" if k % 5 == 2 else None
         rclass = "long-cn" if k % 7 == 3 else ("cn+san+org" if org else "cn+san")
-        return (name, [dns(name)], org, rclass)
+        return (name, [dns(name)], org, rclass, ("list", "tuple", "iter", "names")[k % 4])
 
     for i in range(n):
         e = do_get(s, None, "linear", lin_req(i))
@@ -372,7 +385,7 @@ def linear(t: Tally, n=130, verbose=False):
         flush(i)
         if i % 10 == 0:
             # a name covered by the custom wildcard in between
-            e3 = do_get(s, None, "linear", ("w%d.a.example" % i, [dns("w%d.a.example" % i)], None, "cn+san"))
+            e3 = do_get(s, None, "linear", ("w%d.a.example" % i, [dns("w%d.a.example" % i)], None, "cn+san", "list"))
             t.judge("custom_matches_requested_name", e3 is setup()["custom"][1], {"op": "get", "req": "cn+san", "hit": "custom", "phase": "linear"}, case, "custom *.a.example", "something else")
             flush(i)
         t.case(None, True, "linear|%d" % i)
@@ -397,7 +410,7 @@ def run(ctx):
     # depth-7 search over a reduced alphabet (5 request shapes, 3 custom certificates)
     depth = ctx.pick(4, 5)
     ctx.bounds = {"bfs_depth": depth, "STORE_CAP_for_bfs": CAP,
-                  "request_shapes": ["%s / %s / organization=%s" % (cn, [str(x.value) for x in sans], org) for cn, sans, org in REQUESTS],
+                  "request_shapes": ["%s / %s (sans passed as %s) / organization=%s" % (cn, [str(x.value) for x in sans], how, org) for (cn, sans, org), how in zip(REQUESTS, SANS_AS)],
                   "custom_certificates": [registered_names_of_custom(i) for i in range(len(CUSTOM_SPECS))],
                   "linear_run": "130 distinct names (every 7th longer than 63 characters, every 5th with an organization) with the shipped STORE_CAP=%d" % certs.CertStore.STORE_CAP}
     # quick tier: 13 s of CPU in total (measured), less than what starting a process pool per BFS level costs on a
